@@ -16,12 +16,15 @@ Accepted subset (anything else inside a translated function is a TranslationErro
   IE           `self._data` | tee-bound local | `it.islice(IE, CE)` | `it.chain(IE, IE)` | `xmap(func, IE)` |
                `xfilter(func, IE)` | `g(IE)` (the nested generator) | `Stream(*other)._data`
   RET          `next(IE)` | `constructor(IE)` | `self` | `Stream(IE)` | `self.copy().take(n=CE, constructor=constructor)`
+  thub         `return ARM if isinstance(name, name) else ARM`, ARM = `data` | `StreamTeeHub(names)`
+  hub __init__ `super(StreamTeeHub, self).__init__(names)` | `v = super(StreamTeeHub, self).__iter__()` |
+               `self._iters = list(it.tee(name, name))`
   hub methods  `name = wraps(Stream.name)(lambda self, PARAMS: Stream(self).METH(ARGS))` |
                `if self._iters:` BODY-with-`self._iters[0]`-as-data-slot, then `iter(self)` |
                `try: return self._iters.pop()  except IndexError: raise Name(...)` | a plain body
 
 Normalised away: whitespace, comments, docstrings, the names of tee-bound locals (renamed t0, t1, … in binding
-order), the name of the nested generator and of its loop variables, the message of a `raise`.
+order; locals of StreamTeeHub.__init__: v0, v1, …), the name of the nested generator and of its loop variables, the message of a `raise`.
 """
 import ast
 import os
@@ -39,9 +42,7 @@ NOT_TRANSLATED = {
     "Stream.__init__": "argument-list rules (len / isinstance(., Iterable) / all / any over *dargs): hand model elabArgs / mkSrc, "
                        "tied by the `calls` histories",
     "Stream.__iter__": "`return self._data`: the object plumbing of the history model (pool of objects), no body to translate",
-    "StreamTeeHub.__init__": "super().__init__ / super().__iter__ / list(it.tee(., n)): hand model (step .thub, replicate n), tied by histories",
     "StreamTeeHub.__del__": "object-lifetime effect outside the Lean model (behavioural extra check)",
-    "thub": "one conditional expression on isinstance(data, Iterable): hand model (step .thub / elabCall .thub)",
     "lazy_itertools.tee": "isinstance(data, (Stream, Iterator)) dispatch + generator expressions over it.tee: hand model (step .tee / elabCall .tee)",
     "count spellings (elabTake / elabLimit / elabSkip)": "what CPython's isinf / round / islice accept for bool, Fraction, huge ints: "
                                                         "semantics of builtins, not source text of the repo",
@@ -375,6 +376,74 @@ def hub_def(fn):
 
 
 # ------------------------------------------------------------------------------------------------
+# thub / StreamTeeHub.__init__
+# ------------------------------------------------------------------------------------------------
+def _names(args, node):
+    if not all(isinstance(a, ast.Name) for a in args):
+        _fail(node, "arguments outside the subset (plain names)")
+    return _lean_list('"%s"' % a.id for a in args)
+
+
+def thub_def(fn):
+    """`return StreamTeeHub(data, n) if isinstance(data, Iterable) else data`"""
+    body = [s for s in fn.body if not _is_doc(s)]
+    if fn.decorator_list or len(body) != 1 or not isinstance(body[0], ast.Return) or not isinstance(body[0].value, ast.IfExp):
+        _fail(fn, "thub outside the subset (one `return A if isinstance(x, K) else B`)")
+    e = body[0].value
+    t = e.test
+    if not (_plain_call(t, 2) and _is_name(t.func, "isinstance") and all(isinstance(a, ast.Name) for a in t.args)):
+        _fail(t, "thub: test outside the subset (isinstance(name, name))")
+
+    def arm(node):
+        if _is_name(node, "data"):
+            return ".data"
+        if isinstance(node, ast.Call) and _is_name(node.func, "StreamTeeHub") and not node.keywords:
+            return "(.mkHub %s)" % _names(node.args, node)
+        _fail(node, "thub: arm outside the subset (`data` | `StreamTeeHub(names)`)")
+    return '{ test := ("%s", "%s"), thenR := %s, elseR := %s }' % (t.args[0].id, t.args[1].id, arm(e.body), arm(e.orelse))
+
+
+def _super_call(node, attr):
+    """`super(StreamTeeHub, self).<attr>(...)` -> its argument list, or None"""
+    if not (isinstance(node, ast.Call) and not node.keywords and isinstance(node.func, ast.Attribute)
+            and node.func.attr == attr):
+        return None
+    sup = node.func.value
+    if not (_plain_call(sup, 2) and _is_name(sup.func, "super") and _is_name(sup.args[0], "StreamTeeHub")
+            and _is_name(sup.args[1], "self")):
+        return None
+    return node.args
+
+
+def hub_init(fn):
+    if fn.decorator_list:
+        _fail(fn, "decorated method")
+    loc, out = {}, []
+    ref = lambda n: loc.get(n.id, n.id)
+    for s in fn.body:
+        if _is_doc(s):
+            continue
+        if isinstance(s, ast.Expr):
+            args = _super_call(s.value, "__init__")
+            if args is not None:
+                out.append("(.superInit %s)" % _names(args, s))
+                continue
+        if isinstance(s, ast.Assign) and len(s.targets) == 1:
+            t, v = s.targets[0], s.value
+            if isinstance(t, ast.Name) and _super_call(v, "__iter__") == []:
+                loc.setdefault(t.id, "v%d" % len(loc))
+                out.append('(.bindSuperIter "%s")' % loc[t.id])
+                continue
+            if (_is_self_attr(t, "_iters") and _plain_call(v, 1) and _is_name(v.func, "list") and _plain_call(v.args[0], 2)
+                    and _is_it(v.args[0].func, "tee") and all(isinstance(a, ast.Name) for a in v.args[0].args)):
+                a, b = v.args[0].args
+                out.append('(.setIters "%s" "%s")' % (ref(a), ref(b)))
+                continue
+        _fail(s, "StreamTeeHub.__init__: statement outside the subset")
+    return _lean_list(out)
+
+
+# ------------------------------------------------------------------------------------------------
 # the whole file
 # ------------------------------------------------------------------------------------------------
 def _class(tree, name):
@@ -427,6 +496,14 @@ def parse(text):
         term, sig = hub_lambda(m, _one(hm, "StreamTeeHub", m, ast.Call))
         progs.append(("hub" + m.capitalize(), term))
         sigs.append(("StreamTeeHub." + m, sig))
+    fn = _one(hm, "StreamTeeHub", "__init__", ast.FunctionDef)
+    init_term, init_sig = hub_init(fn), ("StreamTeeHub.__init__", _sig(fn))
+    found = [n for n in tree.body if isinstance(n, ast.FunctionDef) and n.name == "thub"]
+    if len(found) != 1:
+        raise TranslationError("thub: found %d times" % len(found))
+    progs.append(("thub", thub_def(found[0])))
+    progs.append(("hubInit", init_term))
+    sigs += [init_sig, ("thub", _sig(found[0]))]
     # a StreamTeeHub method that is translated for Stream and silently overridden otherwise would escape: refuse
     extra = sorted(set(hm) & set(STREAM_METHODS) - set(HUB_DEFS) - set(HUB_LAMBDAS))
     if extra:
@@ -446,7 +523,7 @@ def translate(text):
              "   Stream / StreamTeeHub read with `ast`).  Do not edit: rewritten on every check. -/",
              "import ALV.Model.C03Src", "namespace ALV.Gen.C03", "open ALV.C03.Src", ""]
     for name, term in progs:
-        ty = "HubBody" if name.startswith("hub") else "Body"
+        ty = {"thub": "ThubBody", "hubInit": "List HIStmt"}.get(name, "HubBody" if name.startswith("hub") else "Body")
         lines += ["def %s : %s :=" % (name if name != "filter" else "filter", ty), "  " + term, ""]
     lines += ["def progs : Progs :=",
               "  { " + ", ".join("%s := %s" % (n, n) for n, _ in progs) + " }", "",
@@ -509,9 +586,21 @@ EDITS = [
     ("hub copy: first copy not rebound", "      self._iters[0] = a\n      return Stream(b)", "      return Stream(b)"),
     ("hub skip: goes to limit", "lambda self, n: Stream(self).skip(n)", "lambda self, n: Stream(self).limit(n)"),
     ("hub map: Stream(self) dropped", "lambda self, func: Stream(self).map(func))", "lambda self, func: Stream.map(self, func))"),
+    ("thub: arms of the conditional swapped", "return StreamTeeHub(data, n) if isinstance(data, Iterable) else data",
+     "return data if isinstance(data, Iterable) else StreamTeeHub(data, n)"),
+    ("thub: Iterator instead of Iterable", "isinstance(data, Iterable) else data", "isinstance(data, Iterator) else data"),
+    ("thub: arguments of StreamTeeHub swapped", "return StreamTeeHub(data, n) if", "return StreamTeeHub(n, data) if"),
+    ("hub init: tee over data instead of the hub's own iterator", "list(it.tee(iter_self, n))", "list(it.tee(data, n))"),
+    ("hub init: constant number of copies", "list(it.tee(iter_self, n))", "list(it.tee(iter_self, 2))"),
+    ("hub init: iterator asked before Stream.__init__ has run",
+     "    super(StreamTeeHub, self).__init__(data)\n    iter_self = super(StreamTeeHub, self).__iter__()\n",
+     "    iter_self = super(StreamTeeHub, self).__iter__()\n    super(StreamTeeHub, self).__init__(data)\n"),
+    ("hub init: parameters swapped", "def __init__(self, data, n):\n    super(StreamTeeHub", "def __init__(self, n, data):\n    super(StreamTeeHub"),
     ("take: default of n changed", "def take(self, n=None, constructor=list):", "def take(self, n=1, constructor=list):"),
 ]
 HARMLESS = [
+    ("hub init: local renamed", "    iter_self = super(StreamTeeHub, self).__iter__()\n    self._iters = list(it.tee(iter_self, n))",
+     "    mine = super(StreamTeeHub, self).__iter__()\n    self._iters = list(it.tee(mine, n))"),
     ("comments / blank lines / docstring", "    a, b = it.tee(self._data) # 2 generators, not thread-safe",
      "    a, b = it.tee(self._data)\n\n    # two generators"),
     ("tee locals renamed", "    a, b = it.tee(self._data) # 2 generators, not thread-safe\n    self._data = a\n    return Stream(b)",
